@@ -1,7 +1,7 @@
 import CentrifugeVerif.Model.RedisPush
 /-!
-Helper lemmas for C33 (`Props/C33.lean`): when the model of `extractPushData` /
-`parseDeltaPush` yields the `panic` outcome, totality of the fixed variant, and the lemmas behind
+Helper lemmas for C33 (`Props/C33.lean`): when the model of `extractPushDataPre` /
+`parseDeltaPushPre` yields the `panic` outcome, totality of the current (guarded) functions, and the lemmas behind
 the build → extract round trip.
 -/
 namespace CentrifugeVerif.RedisPush
@@ -24,10 +24,10 @@ theorem sliceFrom_ok (s : Bytes) (a : Int) (h0 : 0 ≤ a) (h1 : a ≤ (s.length 
     sliceFrom s a = .val (s.drop a.toNat) := by
   unfold sliceFrom; simp [h0, h1]
 
-theorem deltaTail_panic_iff (h : DeltaHead) (prev input : Bytes) :
-    deltaTail h prev input = .panic ↔
+theorem deltaTailPre_panic_iff (h : DeltaHead) (prev input : Bytes) :
+    deltaTailPre h prev input = .panic ↔
       ∃ lS r l, splitColon input = some (lS, r) ∧ atoi lS = some l ∧ l < 0 := by
-  unfold deltaTail
+  unfold deltaTailPre
   split
   · simp_all
   · rename_i lS r hs
@@ -57,9 +57,9 @@ theorem deltaTail_panic_iff (h : DeltaHead) (prev input : Bytes) :
             rw [hl] at h2; cases h2
             exact absurd h3 hneg
 
-theorem deltaBody_panic_iff (h : DeltaHead) :
-    deltaBody h = .panic ↔ (bodyPanicClass h).isSome = true := by
-  unfold deltaBody bodyPanicClass
+theorem deltaBodyPre_panic_iff (h : DeltaHead) :
+    deltaBodyPre h = .panic ↔ (bodyPanicClass h).isSome = true := by
+  unfold deltaBodyPre bodyPanicClass
   by_cases hneg : h.prevLen < 0
   · have h1 : ¬ ((h.rest.length : Int) < h.prevLen) := by omega
     have h2 : sliceTo h.rest h.prevLen = .panic := (sliceTo_panic_iff _ _).2 (Or.inl hneg)
@@ -82,7 +82,7 @@ theorem deltaBody_panic_iff (h : DeltaHead) :
           sliceFrom_ok _ _ (by omega) (by omega)
         have h4 : (h.prevLen + 1).toNat = h.prevLen.toNat + 1 := by omega
         simp only [hneg, heq, hlt, h2, h3, Outcome.bind, if_false, h4]
-        rw [deltaTail_panic_iff]
+        rw [deltaTailPre_panic_iff]
         constructor
         · rintro ⟨lS, r, l, e1, e2, e3⟩
           simp [e1, e2, e3]
@@ -98,12 +98,12 @@ theorem deltaBody_panic_iff (h : DeltaHead) :
               · exact hl
               · simp [hl] at hc
 
-theorem parseDeltaPush_panic_iff (input : Bytes) :
-    parseDeltaPush input = .panic ↔ (deltaPanicClass input).isSome = true := by
-  unfold parseDeltaPush deltaPanicClass
+theorem parseDeltaPushPre_panic_iff (input : Bytes) :
+    parseDeltaPushPre input = .panic ↔ (deltaPanicClass input).isSome = true := by
+  unfold parseDeltaPushPre deltaPanicClass
   split
   · simp
-  · exact deltaBody_panic_iff _
+  · exact deltaBodyPre_panic_iff _
 
 theorem indexSep_le : ∀ (s : Bytes) (p : Nat), indexSep s = some p → p + 2 ≤ s.length
   | [], p, h => by simp [indexSep] at h
@@ -126,10 +126,10 @@ theorem extractJoinLeave_ne_panic (data content : Bytes) (t : Nat) :
   unfold extractJoinLeave
   split <;> simp
 
-theorem extractPositioned_panic_iff (data content : Bytes) :
-    extractPositioned data content = .panic ↔
+theorem extractPositionedPre_panic_iff (data content : Bytes) :
+    extractPositionedPre data content = .panic ↔
       (indexSep content = some 1 ∨ indexSep content = some 2) := by
-  unfold extractPositioned
+  unfold extractPositionedPre
   split
   · rename_i h; simp [h]
   · rename_i h; simp [h]
@@ -151,16 +151,16 @@ theorem extractPositioned_panic_iff (data content : Bytes) :
       · intro hc
         rcases hc with hc | hc <;> (injection hc with hc; omega)
 
-theorem extractDelta_panic_iff (content : Bytes) :
-    extractDelta content = .panic ↔ parseDeltaPush content = .panic := by
-  unfold extractDelta
-  cases h : parseDeltaPush content with
+theorem extractDeltaPre_panic_iff (content : Bytes) :
+    extractDeltaPre content = .panic ↔ parseDeltaPushPre content = .panic := by
+  unfold extractDeltaPre
+  cases h : parseDeltaPushPre content with
   | panic => simp [Outcome.bind]
   | val r => cases r <;> simp [Outcome.bind]
 
-theorem extractPushData_panic_iff (data : Bytes) :
-    extractPushData data = .panic ↔ (panicClass data).isSome = true := by
-  unfold extractPushData panicClass
+theorem extractPushDataPre_panic_iff (data : Bytes) :
+    extractPushDataPre data = .panic ↔ (panicClass data).isSome = true := by
+  unfold extractPushDataPre panicClass
   by_cases hp : data.take 2 ≠ [95, 95]
   · simp [hp]
   · rw [if_neg hp, if_neg hp]
@@ -175,7 +175,7 @@ theorem extractPushData_panic_iff (data : Bytes) :
         · by_cases h3 : ct = 112
           · subst h3
             simp only [if_neg h1, if_neg h2, if_true]
-            rw [extractPositioned_panic_iff]
+            rw [extractPositionedPre_panic_iff]
             constructor
             · rintro (h | h) <;> simp [h]
             · intro h
@@ -183,14 +183,14 @@ theorem extractPushData_panic_iff (data : Bytes) :
           · by_cases h4 : ct = 100
             · subst h4
               simp only [if_neg h1, if_neg h2, if_neg h3, if_true]
-              rw [extractDelta_panic_iff, parseDeltaPush_panic_iff]
+              rw [extractDeltaPre_panic_iff, parseDeltaPushPre_panic_iff]
             · simp [h1, h2, h3, h4]
 
-/-! ### the fixed variant is total and agrees with the code wherever the code does not panic -/
+/-! ### the current (guarded) code is total and agrees with the pre-fix code wherever that did not panic -/
 
-theorem deltaTailFixed_ne_panic (h : DeltaHead) (prev input : Bytes) :
-    deltaTailFixed h prev input ≠ .panic := by
-  unfold deltaTailFixed
+theorem deltaTail_ne_panic (h : DeltaHead) (prev input : Bytes) :
+    deltaTail h prev input ≠ .panic := by
+  unfold deltaTail
   split
   · simp
   · split
@@ -202,8 +202,12 @@ theorem deltaTailFixed_ne_panic (h : DeltaHead) (prev input : Bytes) :
         have : sliceTo ‹Bytes› l = .val (List.take l.toNat ‹Bytes›) := sliceTo_ok _ _ (by omega) (by omega)
         simp [this, Outcome.bind]
 
-theorem deltaBodyFixed_ne_panic (h : DeltaHead) : deltaBodyFixed h ≠ .panic := by
-  unfold deltaBodyFixed
+theorem goAdd1_of_ne (x : Int) (h : x ≠ maxInt64) : goAdd1 x = x + 1 := by
+  simp [goAdd1, h]
+
+theorem deltaBody_ne_panic (h : DeltaHead) (hm : h.prevLen ≠ maxInt64) : deltaBody h ≠ .panic := by
+  unfold deltaBody
+  rw [goAdd1_of_ne _ hm]
   split
   · simp
   · rename_i hg
@@ -212,17 +216,44 @@ theorem deltaBodyFixed_ne_panic (h : DeltaHead) : deltaBodyFixed h ≠ .panic :=
     have h3 : sliceFrom h.rest (h.prevLen + 1) = .val (h.rest.drop (h.prevLen + 1).toNat) :=
       sliceFrom_ok _ _ (by omega) (by omega)
     simp only [h2, h3, Outcome.bind]
-    exact deltaTailFixed_ne_panic _ _ _
+    exact deltaTail_ne_panic _ _ _
 
-theorem parseDeltaPushFixed_ne_panic (input : Bytes) : parseDeltaPushFixed input ≠ .panic := by
-  unfold parseDeltaPushFixed
-  split
-  · simp
-  · exact deltaBodyFixed_ne_panic _
+/-- the guarded code panics exactly when the declared prev-payload length is MaxInt64
+(`prevPayloadLength+1` wraps around, the guard is then false) -/
+theorem deltaBody_panic_iff (h : DeltaHead) : deltaBody h = .panic ↔ h.prevLen = maxInt64 := by
+  constructor
+  · intro hp
+    by_cases hm : h.prevLen = maxInt64
+    · exact hm
+    · exact absurd hp (deltaBody_ne_panic h hm)
+  · intro hm
+    unfold deltaBody
+    have hg : goAdd1 h.prevLen = minInt64 := by simp [goAdd1, hm]
+    rw [hg, hm]
+    have hnot : ¬ (maxInt64 < 0 ∨ (h.rest.length : Int) < minInt64) := by
+      unfold maxInt64 minInt64; omega
+    rw [if_neg hnot]
+    cases hs : sliceTo h.rest maxInt64 with
+    | panic => rfl
+    | val a =>
+      have : sliceFrom h.rest minInt64 = .panic :=
+        (sliceFrom_panic_iff _ _).2 (Or.inl (by unfold minInt64; omega))
+      simp [Outcome.bind, this]
 
-theorem extractPositionedFixed_ne_panic (data content : Bytes) :
-    extractPositionedFixed data content ≠ .panic := by
-  unfold extractPositionedFixed
+theorem parseDeltaPush_panic_iff (input : Bytes) :
+    parseDeltaPush input = .panic ↔ ∃ h, deltaHead input = .ok h ∧ h.prevLen = maxInt64 := by
+  unfold parseDeltaPush
+  cases hd : deltaHead input with
+  | error e => simp
+  | ok h =>
+    simp only [deltaBody_panic_iff]
+    constructor
+    · intro hm; exact ⟨h, rfl, hm⟩
+    · rintro ⟨h', he, hm⟩; cases he; exact hm
+
+theorem extractPositioned_ne_panic (data content : Bytes) :
+    extractPositioned data content ≠ .panic := by
+  unfold extractPositioned
   split
   · simp
   · simp
@@ -235,30 +266,49 @@ theorem extractPositionedFixed_ne_panic (data content : Bytes) :
       simp only [this, Outcome.bind]
       split <;> simp
 
-theorem extractPushDataFixed_ne_panic (data : Bytes) : extractPushDataFixed data ≠ .panic := by
-  unfold extractPushDataFixed
-  split
-  · simp
-  · simp only
-    split
-    · simp
-    · split
-      · exact extractJoinLeave_ne_panic _ _ _
-      · split
-        · exact extractJoinLeave_ne_panic _ _ _
-        · split
-          · exact extractPositionedFixed_ne_panic _ _
-          · split
-            · unfold extractDeltaFixed
-              have := parseDeltaPushFixed_ne_panic (List.drop 2 data)
-              cases h : parseDeltaPushFixed (List.drop 2 data) with
-              | panic => exact absurd h this
-              | val r => cases r <;> simp [Outcome.bind]
-            · simp
+theorem extractDelta_panic_iff (content : Bytes) :
+    extractDelta content = .panic ↔ parseDeltaPush content = .panic := by
+  unfold extractDelta
+  cases h : parseDeltaPush content with
+  | panic => simp [Outcome.bind]
+  | val r => cases r <;> simp [Outcome.bind]
 
-theorem deltaTailFixed_agrees (h : DeltaHead) (prev input : Bytes) (r) :
-    deltaTail h prev input = .val r → deltaTailFixed h prev input = .val r := by
-  unfold deltaTail deltaTailFixed
+/-- the current code panics exactly on `overflowClass` -/
+theorem extractPushData_panic_iff (data : Bytes) :
+    extractPushData data = .panic ↔ overflowClass data = true := by
+  unfold extractPushData overflowClass
+  by_cases hp : data.take 2 ≠ [95, 95]
+  · simp [hp]
+  · rw [if_neg hp, if_neg hp]
+    cases hc : data.drop 2 with
+    | nil => simp
+    | cons ct tl =>
+      simp only
+      by_cases h1 : ct = 106
+      · have : ¬ ct = 100 := by rw [h1]; decide
+        simp [h1, extractJoinLeave_ne_panic]
+      · by_cases h2 : ct = 108
+        · simp [h2, extractJoinLeave_ne_panic]
+        · by_cases h3 : ct = 112
+          · simp [h3, extractPositioned_ne_panic]
+          · by_cases h4 : ct = 100
+            · subst h4
+              simp only [if_neg h1, if_neg h2, if_neg h3, if_true]
+              rw [extractDelta_panic_iff, parseDeltaPush_panic_iff]
+              cases hd : deltaHead (100 :: tl) with
+              | error e => simp
+              | ok h => simp
+            · simp [h1, h2, h3, h4]
+
+theorem extractPushData_ne_panic (data : Bytes) (h : overflowClass data = false) :
+    extractPushData data ≠ .panic := by
+  intro hp
+  rw [(extractPushData_panic_iff data).1 hp] at h
+  cases h
+
+theorem deltaTail_agrees (h : DeltaHead) (prev input : Bytes) (r) :
+    deltaTailPre h prev input = .val r → deltaTail h prev input = .val r := by
+  unfold deltaTailPre deltaTail
   split
   · exact id
   · split
@@ -272,9 +322,10 @@ theorem deltaTailFixed_agrees (h : DeltaHead) (prev input : Bytes) (r) :
         · simp [hlt]
         · simp [hneg, hlt]
 
-theorem deltaBodyFixed_agrees (h : DeltaHead) (r) :
-    deltaBody h = .val r → deltaBodyFixed h = .val r := by
-  unfold deltaBody deltaBodyFixed
+theorem deltaBody_agrees (h : DeltaHead) (hm : h.prevLen ≠ maxInt64) (r) :
+    deltaBodyPre h = .val r → deltaBody h = .val r := by
+  unfold deltaBodyPre deltaBody
+  rw [goAdd1_of_ne _ hm]
   by_cases hneg : h.prevLen < 0
   · have hp : sliceTo h.rest h.prevLen = .panic := (sliceTo_panic_iff _ _).2 (Or.inl hneg)
     have : ¬ ((h.rest.length : Int) < h.prevLen) := by omega
@@ -298,18 +349,19 @@ theorem deltaBodyFixed_agrees (h : DeltaHead) (r) :
         | val a =>
           cases sliceFrom h.rest (h.prevLen + 1) with
           | panic => simp [Outcome.bind]
-          | val b => simp only [Outcome.bind]; exact deltaTailFixed_agrees _ _ _ _
+          | val b => simp only [Outcome.bind]; exact deltaTail_agrees _ _ _ _
 
-theorem parseDeltaPushFixed_agrees (input : Bytes) (r) :
-    parseDeltaPush input = .val r → parseDeltaPushFixed input = .val r := by
-  unfold parseDeltaPush parseDeltaPushFixed
-  split
-  · exact id
-  · exact deltaBodyFixed_agrees _ _
+theorem parseDeltaPush_agrees (input : Bytes)
+    (hm : ∀ h, deltaHead input = .ok h → h.prevLen ≠ maxInt64) (r) :
+    parseDeltaPushPre input = .val r → parseDeltaPush input = .val r := by
+  unfold parseDeltaPushPre parseDeltaPush
+  cases hd : deltaHead input with
+  | error e => exact id
+  | ok h => exact deltaBody_agrees _ (hm h hd) _
 
-theorem extractPositionedFixed_agrees (data content : Bytes) (r) :
-    extractPositioned data content = .val r → extractPositionedFixed data content = .val r := by
-  unfold extractPositioned extractPositionedFixed
+theorem extractPositioned_agrees (data content : Bytes) (r) :
+    extractPositionedPre data content = .val r → extractPositioned data content = .val r := by
+  unfold extractPositionedPre extractPositioned
   split
   · exact id
   · exact id
@@ -325,26 +377,39 @@ theorem extractPositionedFixed_agrees (data content : Bytes) (r) :
       rw [if_neg this]
       exact id
 
-theorem extractPushDataFixed_agrees (data : Bytes) (r) :
-    extractPushData data = .val r → extractPushDataFixed data = .val r := by
-  unfold extractPushData extractPushDataFixed
+theorem extractPushData_agrees (data : Bytes) (ho : overflowClass data = false) (r) :
+    extractPushDataPre data = .val r → extractPushData data = .val r := by
+  unfold overflowClass at ho
+  unfold extractPushDataPre extractPushData
   split
   · exact id
-  · simp only
-    split
-    · exact id
-    · split
+  · rename_i hp
+    rw [if_neg hp] at ho
+    simp only
+    cases hc : data.drop 2 with
+    | nil => exact id
+    | cons ct tl =>
+      rw [hc] at ho
+      simp only at ho ⊢
+      split
       · exact id
       · split
         · exact id
         · split
-          · exact extractPositionedFixed_agrees _ _ _
+          · exact extractPositioned_agrees _ _ _
           · split
-            · unfold extractDelta extractDeltaFixed
-              cases h : parseDeltaPush (List.drop 2 data) with
+            · rename_i h4
+              subst h4
+              simp only [if_true] at ho
+              have hm : ∀ h, deltaHead (100 :: tl) = .ok h → h.prevLen ≠ maxInt64 := by
+                intro h hd hmx
+                rw [hd] at ho
+                simp [hmx] at ho
+              unfold extractDeltaPre extractDelta
+              cases h : parseDeltaPushPre (100 :: tl) with
               | panic => simp [Outcome.bind]
               | val q =>
-                rw [parseDeltaPushFixed_agrees _ _ h]
+                rw [parseDeltaPush_agrees _ hm _ h]
                 exact id
             · exact id
 
@@ -495,9 +560,9 @@ theorem drop_len_add : ∀ (h p : Bytes) (k : Nat), (h ++ p).drop (h.length + k)
 def expectPub (off : Nat) (epoch payload : Bytes) (delta : Bool) (prev : Bytes) : Push :=
   { data := payload, typ := 0, epoch := epoch, offset := off, delta := delta, prev := prev, ok := true }
 
-theorem extractPositioned_frame (data : Bytes) (off : Nat) (epoch payload : Bytes)
+theorem extractPositionedPre_frame (data : Bytes) (off : Nat) (epoch payload : Bytes)
     (hoff : off < 2 ^ 64) (hep : ∀ b ∈ epoch, b ≠ 95) :
-    extractPositioned data (([112, 49, 58] ++ decimal off ++ 58 :: epoch) ++ 95 :: 95 :: payload) =
+    extractPositionedPre data (([112, 49, 58] ++ decimal off ++ 58 :: epoch) ++ 95 :: 95 :: payload) =
       .val (expectPub off epoch payload false []) := by
   have hdec := decimalF_mem 20 off
   have hno : ∀ b ∈ ([112, 49, 58] ++ decimal off ++ 58 :: epoch : Bytes), b ≠ 95 := by
@@ -510,7 +575,7 @@ theorem extractPositioned_frame (data : Bytes) (off : Nat) (epoch payload : Byte
     · exact hep b hb
   have hidx := indexSep_append _ payload hno
   have hdrop := drop_len_add ([112, 49, 58] ++ decimal off ++ 58 :: epoch) (95 :: 95 :: payload) 2
-  unfold extractPositioned
+  unfold extractPositionedPre
   rw [hidx]
   have hlen : ([112, 49, 58] ++ decimal off ++ 58 :: epoch : Bytes).length =
       ((decimal off).length + epoch.length + 3) + 1 := by simp; omega
@@ -551,32 +616,36 @@ theorem splitColon_append (h p : Bytes) (hn : ∀ b ∈ h, b ≠ 58) :
 theorem decimal_no_colon (n : Nat) : ∀ b ∈ decimal n, b ≠ 58 :=
   fun b hb => (decimalF_mem 20 n b hb).2.1
 
-theorem parseDeltaPush_frame (off : Nat) (epoch prev payload : Bytes)
-    (hoff : off < 2 ^ 64) (hep : ∀ b ∈ epoch, b ≠ 58)
-    (hpv : prev.length < 2 ^ 63) (hpl : payload.length < 2 ^ 63) :
-    parseDeltaPush ([100, 49, 58] ++ (decimal off ++ 58 :: (epoch ++ 58 :: (decimal prev.length ++ 58 ::
-        (prev ++ 58 :: (decimal payload.length ++ 58 :: payload)))))) =
-      .val (.ok { offset := off, epoch := epoch, prevLen := prev.length, prev := prev,
-                  payloadLen := payload.length, payload := payload }) := by
-  have hhead : deltaHead ([100, 49, 58] ++ (decimal off ++ 58 :: (epoch ++ 58 :: (decimal prev.length ++ 58 ::
+theorem deltaHead_frame (off : Nat) (epoch prev payload : Bytes)
+    (hoff : off < 2 ^ 64) (hep : ∀ b ∈ epoch, b ≠ 58) (hpv : prev.length < 2 ^ 63) :
+    deltaHead ([100, 49, 58] ++ (decimal off ++ 58 :: (epoch ++ 58 :: (decimal prev.length ++ 58 ::
         (prev ++ 58 :: (decimal payload.length ++ 58 :: payload)))))) =
       .ok { offset := off, epoch := epoch, prevLen := prev.length,
             rest := prev ++ 58 :: (decimal payload.length ++ 58 :: payload) } := by
-    unfold deltaHead
-    have : List.take 3 ([100, 49, 58] ++ (decimal off ++ 58 :: (epoch ++ 58 :: (decimal prev.length ++ 58 ::
-        (prev ++ 58 :: (decimal payload.length ++ 58 :: payload)))))) = d1Prefix := by simp [d1Prefix]
-    rw [if_neg (by rw [this]; simp)]
-    simp only [show ∀ l : Bytes, List.drop 3 ([100, 49, 58] ++ l) = l from fun l => by simp]
-    rw [splitColon_append _ _ (decimal_no_colon off)]
-    simp only [parseUint_decimal off hoff]
-    rw [splitColon_append _ _ hep]
-    simp only
-    rw [splitColon_append _ _ (decimal_no_colon _)]
-    simp only [atoi_decimal _ hpv]
-  unfold parseDeltaPush
+  unfold deltaHead
+  have : List.take 3 ([100, 49, 58] ++ (decimal off ++ 58 :: (epoch ++ 58 :: (decimal prev.length ++ 58 ::
+      (prev ++ 58 :: (decimal payload.length ++ 58 :: payload)))))) = d1Prefix := by simp [d1Prefix]
+  rw [if_neg (by rw [this]; simp)]
+  simp only [show ∀ l : Bytes, List.drop 3 ([100, 49, 58] ++ l) = l from fun l => by simp]
+  rw [splitColon_append _ _ (decimal_no_colon off)]
+  simp only [parseUint_decimal off hoff]
+  rw [splitColon_append _ _ hep]
+  simp only
+  rw [splitColon_append _ _ (decimal_no_colon _)]
+  simp only [atoi_decimal _ hpv]
+
+theorem parseDeltaPushPre_frame (off : Nat) (epoch prev payload : Bytes)
+    (hoff : off < 2 ^ 64) (hep : ∀ b ∈ epoch, b ≠ 58)
+    (hpv : prev.length < 2 ^ 63) (hpl : payload.length < 2 ^ 63) :
+    parseDeltaPushPre ([100, 49, 58] ++ (decimal off ++ 58 :: (epoch ++ 58 :: (decimal prev.length ++ 58 ::
+        (prev ++ 58 :: (decimal payload.length ++ 58 :: payload)))))) =
+      .val (.ok { offset := off, epoch := epoch, prevLen := prev.length, prev := prev,
+                  payloadLen := payload.length, payload := payload }) := by
+  have hhead := deltaHead_frame off epoch prev payload hoff hep hpv
+  unfold parseDeltaPushPre
   rw [hhead]
   simp only
-  unfold deltaBody
+  unfold deltaBodyPre
   simp only
   have hlen : ¬ (((prev ++ 58 :: (decimal payload.length ++ 58 :: payload)).length : Int) < (prev.length : Int)) := by
     simp; omega
@@ -591,7 +660,7 @@ theorem parseDeltaPush_frame (off : Nat) (epoch prev payload : Bytes)
     have : ((prev.length : Int) + 1).toNat = prev.length + 1 := by omega
     rw [this, drop_len_add]; rfl
   rw [e1, e2]
-  unfold deltaTail
+  unfold deltaTailPre
   rw [splitColon_append _ _ (decimal_no_colon _)]
   simp only [atoi_decimal _ hpl]
   rw [if_neg (by omega)]
